@@ -49,6 +49,16 @@ Theorem concat_panics_refuted :
   concat_maps_top [[("k"%string, CStr "a")]; [("k"%string, CNil)]] = Ok [("k"%string, CStr "a")].
 Proof. repeat split; vm_compute; reflexivity. Qed.
 
+(* Finding F-C14b (repaired in /repo by commit 509de21): a concat function registered for an
+   interface chunk type (tag 9 of the harness registry: sum of the non-nil chunks, the nil value
+   = payload 0 when every chunk is nil) may answer with the nil value of that type; before the
+   repair ConcatItems panicked on it, the repaired function returns it. *)
+Theorem concat_iface_nil_panics_refuted :
+  concat_stream_iface_v0 [COther 9 0; COther 9 0] = Panic /\
+  concat_stream [COther 9 0; COther 9 0] = Ok (COther 9 0) /\
+  concat_stream_iface_v0 [COther 9 0; COther 9 3] = concat_stream [COther 9 0; COther 9 3].
+Proof. repeat split; vm_compute; reflexivity. Qed.
+
 (* Re-chunking: for a statically typed chunk stream (all chunks of dynamic type [t]),
    concatenating a non-empty prefix first and then the rest gives exactly the same value
    (first-appearance key order included) as concatenating everything at once, or both
@@ -1105,6 +1115,16 @@ Theorem code_concatMaps :
 Proof. exact @ref_concat_maps. Qed.
 Print Assumptions code_concatMaps.
 
+(* the recursion of the code is bounded by the nesting depth of the chunks: unrolled more often
+   than the chunks are deep, the code computes concat_maps_top (the function of every theorem
+   above that speaks about map chunks and Extra maps) *)
+Theorem code_concatMaps_top :
+  forall (U : UserFn) (fuel : nat) (mt : N) (l : list (list (string * cval))),
+    dmaps l < fuel ->
+    gen_maps_fuel fuel (TMap mt, map (CMap mt) l) = res_map (fun r => Some (CMap mt r)) (concat_maps_top l).
+Proof. exact @ref_concat_maps_top. Qed.
+Print Assumptions code_concatMaps_top.
+
 Example code_concatMaps_nonvacuous :
   gen_maps_fuel 3 (TMap 0, [CMap 0 [("k"%string, CNil); ("m"%string, CMap 1 [("a"%string, CStr "x")])];
                             CMap 0 [("m"%string, CMap 1 [("a"%string, CStr "y")]); ("k"%string, CStr "s")]])
@@ -1132,3 +1152,72 @@ Theorem code_toolcall_order :
   forall a b : toolcall, gen_tc_less (tc_idx a) (tc_idx b) = Some (tc_less a b).
 Proof. exact (conj ref_tc_sort_stable ref_tc_less). Qed.
 Print Assumptions code_toolcall_order.
+
+(* the stream entry points compose.concatStreamReader[T] and schema.ConcatMessageStream, statement by
+   statement (the drain loop with break / return, the empty and the single-chunk case, the call of the
+   concatenation function [ci]): they are [stream_entry] of "empty = error, one chunk = itself,
+   else ci" — for every chunk type, every concatenation function and everything a reader can deliver *)
+Theorem code_stream_entry_points :
+  forall (X : Type) (zero : X) (ci : list X -> res X) (s : list (sitem X)),
+    let F := fun vs => match vs with [] => Err E_EMPTY | [v] => Ok v | _ => ci vs end in
+    gen_concatStreamReader X zero ci s = stream_entry F s /\
+    gen_ConcatMessageStream X zero ci s = stream_entry F s.
+Proof. intros X zero ci s. split; [exact (ref_concatStreamReader X zero ci s) | exact (ref_ConcatMessageStream X zero ci s)]. Qed.
+Print Assumptions code_stream_entry_points.
+
+(* instances: the entry points the theorems stream_* / msg_stream_* above are about *)
+Theorem code_stream_entry_instances :
+  forall (U : UserFn),
+    (forall s, gen_concatStreamReader cval CNil concat_items s = stream_entry concat_stream s) /\
+    (forall s, gen_concatStreamReader cval CNil concat_items_any s = stream_entry concat_stream_any s) /\
+    (forall s, gen_ConcatMessageStream (option msg) None (fun l => res_map Some (concat_msgs l)) s = stream_entry msg_stream s) /\
+    (forall s, gen_concatStreamReader (option msg) None (fun l => res_map Some (concat_msgs l)) s = stream_entry msg_stream s).
+Proof.
+  intros U. repeat split; intros s;
+    [ rewrite (ref_concatStreamReader cval CNil) | rewrite (ref_concatStreamReader cval CNil)
+    | rewrite (ref_ConcatMessageStream (option msg) None) | rewrite (ref_concatStreamReader (option msg) None) ];
+    unfold stream_entry; destruct (drain s) as [[|v [|w r]]|]; reflexivity.
+Qed.
+Print Assumptions code_stream_entry_instances.
+
+Example code_stream_entry_nonvacuous :
+  gen_concatStreamReader cval CNil concat_items [SVal (CStr "a"); SVal (CStr "b")] = Ok (CStr "ab") /\
+  gen_concatStreamReader cval CNil concat_items [SVal (CStr "a"); SErr; SVal (CStr "b")] = Err E_READ /\
+  gen_concatStreamReader cval CNil concat_items [] = Err E_EMPTY /\
+  gen_ConcatMessageStream (option msg) None (fun l => res_map Some (concat_msgs l)) [SVal None] = Ok None.
+Proof. repeat split; vm_compute; reflexivity. Qed.
+
+(* schema.concatToolCalls, statement by statement (Model/ConcatCodeRef.v gen_concatToolCalls: the grouping
+   loop over the fragments with the positions collected per index in a map, the loop over that map in
+   Go's arbitrary order [ord], the first fragment as the base of the merged call, id / type / name by
+   "first non-empty, a later different one is an error", arguments joined, stable sort): for every
+   order it is [concat_toolcalls_o] of that order, and hence — for EVERY order Go may choose — the
+   function [concat_toolcalls] of order_kept / fields_merged / msg_concat_rechunk, or both are errors. *)
+From Eino Require Import Proofs.ConcatCodeTC.
+
+Theorem code_concatToolCalls :
+  forall (ord : list (Z * list nat) -> list (Z * list nat)) (cs : list toolcall),
+    (forall m, Permutation (ord m) m) ->
+    gen_concatToolCalls ord cs = concat_toolcalls_o (map fst (ord (snd (groups cs)))) cs /\
+    Permutation (map fst (ord (snd (groups cs)))) (idxs_of cs) /\
+    match gen_concatToolCalls ord cs, concat_toolcalls cs with
+    | Ok a, Ok b => a = b
+    | Err _, Err _ => True
+    | _, _ => False
+    end.
+Proof.
+  intros ord cs H. split; [exact (ref_concatToolCalls ord cs H)|]. split; [exact (groups_keys_perm ord cs H)|exact (ref_concatToolCalls_model ord cs H)].
+Qed.
+Print Assumptions code_concatToolCalls.
+
+Example code_concatToolCalls_nonvacuous :
+  let f := fun i id a => mkTC i id EmptyString EmptyString a 0%N in
+  let cs := [f (Some 1%Z) "c1"%string "{"%string; f None "n"%string "x"%string; f (Some 0%Z) EmptyString "a"%string;
+             f (Some 1%Z) EmptyString "}"%string; f (Some 0%Z) "c0"%string "b"%string] in
+  (forall m, Permutation (@rev (Z * list nat) m) m) /\
+  gen_concatToolCalls (@rev _) cs = Ok [f None "n"%string "x"%string; f (Some 0%Z) "c0"%string "ab"%string; f (Some 1%Z) "c1"%string "{}"%string] /\
+  gen_concatToolCalls (fun m => m) cs = gen_concatToolCalls (@rev _) cs /\
+  gen_concatToolCalls (fun m => m) [f (Some 0%Z) "a"%string EmptyString; f (Some 0%Z) "b"%string EmptyString] = Err E_CONFLICT.
+Proof.
+  split; [intros m; apply Permutation_sym, Permutation_rev|]. repeat split; vm_compute; reflexivity.
+Qed.
